@@ -26,6 +26,9 @@ understand the early-exit spelling (for ..: if <fails>: return False; return
 True).  LAW-GUARD - the normal law is reached only on paths where `ndf is
 None` holds, and Student-law calls receive ndf itself.  QUAD is NaN-strict:
 hypot(inf, NaN) = inf masks an undefined error.
+SIDED follows module helpers and requires the level to reach them unrounded;
+NAN-MASK - no NaN-ignoring numpy function in student.py; STAT-DTYPE - the statistic is not stored into an array allocated with the
+dtype of the input data.
 Not decided: numerical values of t, quantile, p-value; monotonicity and scale
 invariance as numeric facts.
 '''
